@@ -194,6 +194,14 @@ func c20Cases(thorough bool) []c20Case {
 	wrap := map[string]func(f interface{}) interface{}{
 		"plain": func(f interface{}) interface{} { return f },
 		"and":   func(f interface{}) interface{} { return map[string]interface{}{"$and": []interface{}{f, f}} },
+		// next to another clause that carries an argument of its own (a placeholder smuggled into the client's text would
+		// take it), in either order
+		"and-then-arg": func(f interface{}) interface{} {
+			return map[string]interface{}{"$and": []interface{}{f, map[string]interface{}{"$match": map[string]interface{}{"metadata[k]": "zzz"}}}}
+		},
+		"arg-then-and": func(f interface{}) interface{} {
+			return map[string]interface{}{"$and": []interface{}{map[string]interface{}{"$match": map[string]interface{}{"metadata[k]": "zzz"}}, f}}
+		},
 		"or-not": func(f interface{}) interface{} {
 			return map[string]interface{}{"$or": []interface{}{map[string]interface{}{"$not": f}, f}}
 		},
